@@ -42,10 +42,11 @@ def run(ctx) -> list[Inst]:
     installers = {}
     for g in prog.all_funcs():
         for n in own_nodes(g.node):
+            allp = [a.arg for a in g.node.args.posonlyargs + g.node.args.args + g.node.args.kwonlyargs]
             if isinstance(n, ast.Call) and isinstance(n.func, ast.Attribute) and n.func.attr == 'addErrorListener' \
-                    and isinstance(n.func.value, ast.Name) and n.func.value.id in g.params and n.args \
-                    and isinstance(n.args[0], ast.Name) and n.args[0].id in g.params:
-                installers[g.name] = (g, g.params.index(n.func.value.id), g.params.index(n.args[0].id))
+                    and isinstance(n.func.value, ast.Name) and n.func.value.id in allp and n.args \
+                    and isinstance(n.args[0], ast.Name) and n.args[0].id in allp:
+                installers[g.name] = (g, n.func.value.id, n.args[0].id)
 
     def find_ctor(fn, name):
         for n in own_nodes(fn.node):
@@ -100,13 +101,18 @@ def run(ctx) -> list[Inst]:
                 found.append((n.args[0], cfg.owner(n)))
             nm = n.func.attr if isinstance(n.func, ast.Attribute) else (n.func.id if isinstance(n.func, ast.Name) else '')
             if nm in installers:
-                g, ri, li = installers[nm]
+                g, rname, lname = installers[nm]
                 off = 1 if g.is_method and not g.is_staticmethod and isinstance(n.func, ast.Attribute) else 0
                 if g.is_staticmethod:
                     off = 0
                 args = list(n.args)
-                ra = args[ri - off] if 0 <= ri - off < len(args) else None
-                la = args[li - off] if 0 <= li - off < len(args) else None
+                pos = [a.arg for a in g.node.args.posonlyargs + g.node.args.args]
+
+                def actual(pname):
+                    if pname in pos and 0 <= pos.index(pname) - off < len(args):
+                        return args[pos.index(pname) - off]
+                    return next((k.value for k in n.keywords if k.arg == pname), None)
+                ra, la = actual(rname), actual(lname)
                 if ra is None or la is None:
                     continue
                 if ra is ctor or (isinstance(ra, ast.Name) and ra.id == var) or any(x is ctor for x in ast.walk(ra)):
